@@ -152,7 +152,6 @@ def make_unit(features, name):
         undecided=[
             'toml + serde round trip of Config (#[serde(default)], #[serde(skip)] on target_os) and store_config/create_new never overwriting',
             'config discovery (-c and ancestor-directory search): file system',
-            'wiring of Config fields into the Box<dyn Language> back ends (main.rs::language) - would have to look inside a trait object',
         ],
     )
 
